@@ -299,3 +299,71 @@ func PoolB() *Pool {
 	p.EDBs = edbs
 	return p
 }
+
+// PoolA: aggregation rules over p/2, q/1 (and t/2 = transitive closure of p).
+type AggRule struct {
+	Text  string
+	Head  string // "h2x", "h2y", "g1"
+	UsesT bool
+}
+
+// AggRules enumerates aggregating rules; reducers limits the reducer alphabet.
+func AggRules(reducers []string) []AggRule {
+	bodies := []struct {
+		b     string
+		usesT bool
+		hasY  bool
+	}{
+		{"p(X,Y)", false, true},
+		{"p(X,Y), q(X)", false, true},
+		{"p(X,Y), q(Y)", false, true},
+		{"q(X), p(X,Y)", false, true},
+		{"p(X,Y), X < Y", false, true},
+		{"p(X,Y), p(Y,Z)", false, true},
+		{"t(X,Y)", true, true},
+		{"t(X,Y), q(Y)", true, true},
+		{"p(X,X)", false, false},
+		{"p(X,Y), p(Y,X)", false, true},
+	}
+	var out []AggRule
+	for _, b := range bodies {
+		for _, red := range reducers {
+			arg := "Y"
+			if !b.hasY {
+				arg = "X"
+			}
+			r := red
+			if red != "fn:count()" {
+				r = strings.Replace(red, "(V)", "("+arg+")", 1)
+			}
+			out = append(out, AggRule{fmt.Sprintf("h(X,C) :- %s |> do fn:group_by(X), let C = %s.", b.b, r), "h2x", b.usesT})
+			out = append(out, AggRule{fmt.Sprintf("g(C) :- %s |> do fn:group_by(), let C = %s.", b.b, r), "g1", b.usesT})
+			if b.hasY && (red == "fn:count()" || red == "fn:sum(V)") {
+				r2 := strings.Replace(red, "(V)", "(X)", 1)
+				out = append(out, AggRule{fmt.Sprintf("k(Y,C) :- %s |> do fn:group_by(Y), let C = %s.", b.b, r2), "h2y", b.usesT})
+			}
+		}
+	}
+	return out
+}
+
+// AggEDBs: all p subsets of {1,2,3}^2 with at most maxP tuples x the given q sets.
+func AggEDBs(maxP int, qsets [][]int) [][]string {
+	var out [][]string
+	for _, g := range Digraphs("p", 3, maxP) {
+		for _, qs := range qsets {
+			e := append([]string{}, g...)
+			for _, q := range qs {
+				e = append(e, fmt.Sprintf("q(%d)", q))
+			}
+			out = append(out, e)
+		}
+	}
+	return out
+}
+
+// AggDecls are the declarations/support rules of pool A.
+const AggDecls = "Decl p(A,B).\nDecl q(A).\n"
+
+// AggTC is the transitive closure support program.
+const AggTC = "t(X,Y) :- p(X,Y).\nt(X,Y) :- p(X,Z), t(Z,Y).\n"
